@@ -364,7 +364,7 @@ class Fn:
             t = self.term(bb)
             if t["k"] != "call":
                 continue
-            if rx is None or rx.search(call_name(t)):
+            if rx is None or rx.search(call_name(t)) or rx.search(strip_own_generics(call_name(t))):
                 yield bb, t
 
     # ---- definitions
@@ -405,9 +405,36 @@ class Fn:
         return None
 
 
+CRATE_ROOTS = ("internal::", "scanner::", "scanner_builder::", "scanner_mode::", "pattern::", "find_matches::", "match_type::", "span::", "position::",
+               "with_positions::", "errors::")
+
+
+def strip_own_generics(name):
+    """`path::to::f::<A, B>` -> `path::to::f` for functions of the crate (a method made generic over `impl Trait` keeps its name:
+    the rules' patterns end in `name$`).  Functions of other crates keep their instantiation (rules match on it)."""
+    if not name.endswith(">") or "::<" not in name:
+        return name
+    if not (name.startswith(CRATE_ROOTS) or (name.startswith("<") and name[1:].startswith(CRATE_ROOTS))):
+        return name
+    depth = 0
+    for i in range(len(name) - 1, -1, -1):
+        c = name[i]
+        if c == ">":
+            depth += 1
+        elif c == "<":
+            depth -= 1
+            if depth == 0:
+                return name[:i - 2] if name[:i].endswith("::") else name
+    return name
+
+
 def call_name(t):
-    """Most specific printable name of a call terminator's callee."""
-    return t.get("callee_full") or t.get("callee_path") or t.get("callee_ty") or "?"
+    """Most specific printable name of a call terminator's callee (a moved function under the name the rules know)."""
+    n = t.get("callee_full") or t.get("callee_path") or t.get("callee_ty") or "?"
+    b = strip_own_generics(n)      # a function of the crate is named without its own generic arguments
+    if ALIASES and b in ALIASES:
+        return ALIASES[b]
+    return b
 
 
 def call_resolved(t):
@@ -632,13 +659,60 @@ def short_name(s):
 # --------------------------------------------------------------------------------------------
 
 
+ALIASES = {}       # function name in the analysed tree -> the name the rules know it by (set when Facts are loaded)
+
+
+def _aliases(names):
+    """A function the rules know as a method `mod::Type::name` that now exists as a free function `mod::name` of the same module
+    (or the reverse) — and no longer under its old name — is the same function moved: it is analysed under the known name,
+    its receiver-typed first parameter is called `self`."""
+    import os
+    try:
+        with open(os.path.join(os.path.dirname(__file__), "vocabulary.txt")) as fh:
+            voc = set(l.rstrip("\n") for l in fh if l.strip())
+    except OSError:
+        return {}
+    def split(n):
+        n2 = re.sub(r"::<[^<>]*>", "", n)
+        parts = n2.split("::")
+        return parts
+    present = set(names)
+    by_last = defaultdict(list)
+    for v in voc:
+        if v.startswith("<") or "{closure" in v or v in present:
+            continue
+        p = split(v)
+        by_last[p[-1]].append((v, p))
+    out = {}
+    for n in sorted(present):
+        if n in voc or n.startswith("<") or "{closure" in n:
+            continue
+        p = split(n)
+        cands = []
+        for v, vp in by_last.get(p[-1], []):
+            # method -> free fn of the same module, or free fn -> method of a type in the same module
+            if (len(vp) == len(p) + 1 and vp[:-2] == p[:-1]) or (len(p) == len(vp) + 1 and p[:-2] == vp[:-1]):
+                cands.append((v, vp))
+        if len(cands) == 1:
+            out[n] = cands[0][0]
+    return out
+
+
 class Facts:
     def __init__(self, path):
         with open(path) as fh:
             self.j = json.load(fh)
+        global ALIASES
+        ALIASES = _aliases([f["name"] for f in self.j["functions"]])
+        self.aliases = dict(ALIASES)
         self.fns = {}
         self.by_name = defaultdict(list)
         for f in self.j["functions"]:
+            for old_, new_ in ALIASES.items():
+                if f["name"] == old_ or f["name"].startswith(old_ + "::{closure"):
+                    f["alias_of"] = f["name"]
+                    f["name"] = new_ + f["name"][len(old_):]
+                    break
             fn = Fn(f, self)
             self.fns[fn.key] = fn
             self.by_name[fn.name].append(fn)
